@@ -193,9 +193,9 @@ headers, kinds of statements and the names they bind) they had when the model wa
 loop, early exit or rebinding has been added that the model does not describe -/
 theorem modelled_functions_have_the_transcribed_shape :
     MlVerif.Gen.C15.shapeTransferFit =
-      "if(self.copy_estimator){self.estimator_=;call assert_estimator_equal}else{self.estimator_=};if(self.trainable){insp=;pars=;if('y' in pars and 'sample_weight' in pars){call fit}else{if('y' in pars){call fit}else{if('sample_weight' in pars){call fit}else{call fit}}}};return" ∧
+      "sig(self, X=None, y=None, sample_weight=None)|if self.copy_estimator: self.estimator_ = clone_with_fitted_parameters(self.estimator) from .sklearn_testing import assert_estimator_equal assert_estimator_equal(self.estimator_, self.estimator) else: self.estimator_ = self.estimator ; if self.trainable: insp = inspect.signature(self.estimator_.fit) pars = insp.parameters if 'y' in pars and 'sample_weight' in pars: self.estimator_.fit(X, y, sample_weight) elif 'y' in pars: self.estimator_.fit(X, y) elif 'sample_weight' in pars: self.estimator_.fit(X, sample_weight=sample_weight) else: self.estimator_.fit(X) ; return self" ∧
     MlVerif.Gen.C15.shapeTransferInit =
-      "call __init__;call __init__;self.estimator=;self.copy_estimator=;self.trainable=;if(method is None){if(hasattr(estimator, 'transform')){method=}else{if(hasattr(estimator, 'predict_proba')){method=}else{if(hasattr(estimator, 'decision_function')){method=}else{if(hasattr(estimator, 'predict')){method=}else{raise}}}}};assert;self.method=" :=
+      "sig(self, estimator, method=None, copy_estimator=True, trainable=False)|call __init__;call __init__;self.estimator=;self.copy_estimator=;self.trainable=;if(method is None){if(hasattr(estimator, 'transform')){method=}else{if(hasattr(estimator, 'predict_proba')){method=}else{if(hasattr(estimator, 'decision_function')){method=}else{if(hasattr(estimator, 'predict')){method=}else{raise}}}}};assert;self.method=" :=
   ⟨rfl, rfl⟩
 
 /-! ### non-vacuity -/
